@@ -1532,20 +1532,87 @@ def faults_of(ctx, c, every):
     return out
 
 
+CODE_RE = __import__('re').compile(r'[A-Z][A-Z0-9]{4}')
+
+
+def oma_bad_species(c):
+    """species blocks of an OMA-mode case that name an internal node which the OMA rule cannot redirect to a leaf
+    (not exactly one code-named child, or that child is not a leaf), or no node / several nodes"""
+    named = c.named_tree()
+    by_name = {}
+    for n in named.nodes():
+        by_name.setdefault(n.name, []).append(n)
+    bad = []
+    for name, _ in c.species:
+        ns = by_name.get(name, [])
+        if len(ns) != 1:
+            bad.append((name, 'names %d nodes' % len(ns)))
+            continue
+        n = ns[0]
+        if n.kids:
+            cand = [k for k in n.kids if len(k.name) == 5 and CODE_RE.match(k.name)]
+            if len(cand) != 1:
+                bad.append((name, 'internal node with %d code-named children' % len(cand)))
+            elif cand[0].kids:
+                bad.append((name, 'internal node whose code-named child is internal'))
+    return bad
+
+
+def judge_oma(ctx, L):
+    c = L.case
+    bad = oma_bad_species(c)
+    ctx.dist['oma=' + ('sound' if not bad else 'unsound')] += 1
+    if L.model_unmodelled():
+        ctx.counts['outside_model_domain'] += 1
+        return
+    i_ok, m_ok = L.impl[0] == 'ok', L.model[0] == 'ok'
+    if bad and i_ok:
+        ctx.violation('OMA mode: species %r (%s) is accepted: the load succeeds' % bad[0],
+                      {'case': case_json(c), 'fault': 'internal node as species (OMA mode)', 'species': bad})
+        return
+    if i_ok != m_ok:
+        ctx.violation('parser layer (OMA mode): implementation %s, model %s; props/C20.v: c20_oma_* no longer tied to the code'
+                      % (L.impl[:2] if not i_ok else 'loads', L.model[:2] if not m_ok else 'loads'),
+                      {'case': case_json(c), 'layer': 'parser'}, no_input=True)
+        return
+    if not i_ok:
+        ctx.counts['oma_both_reject'] += 1
+        if not bad and c.consistent:
+            ctx.violation('OMA mode: consistent input rejected: %s' % (L.impl[1],), {'case': case_json(c)})
+        return
+    diffs = compare_parser(L)
+    if diffs == ['unmodelled']:
+        ctx.counts['outside_model_domain'] += 1
+    elif diffs:
+        report_parser_layer(ctx, L, diffs, 'props/C20.v: c20_oma_is_plain_load')
+    else:
+        ctx.counts['oma_both_load_and_agree'] += 1
+
+
 def check_C20(ctx):
-    base = [c for c in gen_main(ctx, ctx.scale(120, 1200)) if c.consistent and c.groups]
+    if FORCED is not None:
+        base = [c for c in FORCED if not c.tag.startswith('fault') and not c.oma]
+        faulty = [(c.tag, 'replayed', c, c) for c in FORCED if c.tag.startswith('fault') and not c.oma]
+        omas = [c for c in FORCED if c.oma]
+    else:
+        base = [c for c in gen_main(ctx, ctx.scale(120, 1200)) if c.consistent and c.groups]
+        faulty = None
+        omas = None
     every = ctx.tier == 'thorough'
-    faulty = []
-    for c in base:
-        ctx.record_case(c)
-        faulty.extend((k, p, fc, c) for k, p, fc in faults_of(ctx, c, every))
+    if faulty is None:
+        faulty = []
+        for c in base:
+            ctx.record_case(c)
+            faulty.extend((k, p, fc, c) for k, p, fc in faults_of(ctx, c, every))
     Ls = core.load_cases([fc for _, _, fc, _ in faulty])
     for (kind, pos, fc, c), L in zip(faulty, Ls):
         ctx.counts['faults'] += 1
         ctx.dist['fault=' + kind] += 1
         ctx.distinct.add(fc.xml())
         if L.impl[0] == 'ok':
-            nested_empty_pg = kind == 'empty group' and empty_pg_after_members(fc.groups, pos)
+            nested_empty_pg = 'empty' in kind and isinstance(pos, tuple) and empty_pg_after_members(fc.groups, pos)
+            if pos == 'replayed' and 'empty' in kind:
+                nested_empty_pg = any(has_empty_pg_in_pg(g) for g in fc.groups)
             ctx.violation('%s at %s is accepted: the load succeeds' % (kind, list(pos) if isinstance(pos, tuple) else pos),
                           {'case': case_json(fc), 'fault': kind, 'position': pos, 'original': case_json(c)},
                           finding_key='F9-empty-paralogGroup-after-members' if nested_empty_pg else None)
@@ -1556,6 +1623,27 @@ def check_C20(ctx):
                           {'case': case_json(fc), 'fault': kind, 'position': pos, 'layer': 'parser'}, no_input=True)
         else:
             ctx.counts['both_reject'] += 1
+    # species_resolve_mode="OMA": internal species names are redirected to a unique code-named leaf child, else rejected
+    if omas is None:
+        omas = []
+        for c in base:
+            if not c.species:
+                continue
+            for _ in range(2 if every else 1):
+                v = gen.oma_variant(ctx.rng, c)
+                omas.append(v)
+                # and the same with one species block moved onto an internal node of the tree
+                internal = [n.name for n in v.named_tree().nodes() if n.kids]
+                i = ctx.rng.randrange(len(v.species))
+                w = gen.Case(v.tree, list(v.species), v.groups, v.use_internal, None, v.singles, 'oma', v.stats, False)
+                w.oma = True
+                w.species[i] = (ctx.rng.choice(internal), w.species[i][1])
+                omas.append(w)
+    Lo = core.load_cases(omas)
+    for L in Lo:
+        ctx.counts['oma_cases'] += 1
+        ctx.distinct.add(L.case.newick() + L.case.xml())
+        judge_oma(ctx, L)
     # on a successful load nothing has been dropped
     Ls = core.load_cases(base)
     for L in Ls:
@@ -1567,6 +1655,16 @@ def check_C20(ctx):
                 ctx.counts['loads_without_drop'] += 1
         else:
             ctx.violation('consistent input rejected: %s' % L.impl[1], {'case': case_json(L.case)})
+
+
+def has_empty_pg_in_pg(it, in_pg=False):
+    if it[0] == 'pg':
+        if in_pg and not it[2]:
+            return True
+        return any(has_empty_pg_in_pg(x, True) for x in it[2])
+    if it[0] == 'og':
+        return any(has_empty_pg_in_pg(x, False) for x in it[3])
+    return False
 
 
 def empty_pg_after_members(groups, pos):
